@@ -424,6 +424,18 @@ def opCsv (j : Json) : Json :=
   let text := Csv.render d recs
   Json.mkObj [("text", toJson (String.ofList text)), ("read", jsonOfCsvRead (Csv.read d text))]
 
+/-- op `hdrcache`: header names → the text of the header cache file and what is read back from it -/
+def opHdrCache (j : Json) : Json :=
+  let hs := (getArr j "headers").toList.map (fun x => match x with | .str s => s.toList | _ => [])
+  let text := Cache.store hs
+  Json.mkObj [("text", toJson (String.ofList text)),
+    ("load", match Cache.load text with
+      | none => Json.null
+      | some l => toJson (l.map String.ofList)),
+    ("load_of", match j.getObjVal? "text" with
+      | .ok (.str t) => (match Cache.load t.toList with | none => Json.null | some l => toJson (l.map String.ofList))
+      | _ => Json.null)]
+
 def opCsvRead (j : Json) : Json :=
   Json.mkObj [("read", jsonOfCsvRead (Csv.read (dialectOfJson j) (getStr j "text").toList))]
 
@@ -589,6 +601,7 @@ def handle (line : String) : Json :=
     else if op == "headers" then opHeaders j
     else if op == "csv" then opCsv j
     else if op == "csvread" then opCsvRead j
+    else if op == "hdrcache" then opHdrCache j
     else if op == "interp" then opInterp j
     else if op == "print" then opPrint j
     else if op == "parse" then opParse j
